@@ -20,13 +20,17 @@ LEVEL_TEXT = ("Theorem (all programs, all old object states, all dirty buffers, 
               "field; the generator checks that handleRequest overwrites it). registry.put clears the payload (body matched by the translator). "
               "Every run decodes frame sequences into really recycled objects and compares with a fresh decode, with the model, and checks backend-seen "
               "arguments and reply bytes on two interleaved connections.")
-LEVEL_NOTE = ("Trusted: Coq kernel + vm_compute; go2coq CodecGen; sync.Pool / channel cache semantics ('returns some earlier object or a new one') — the model "
-              "quantifies over every old object state, which covers any pool behaviour; vecnet ReadFrom fills the whole slice (C17).")
+LEVEL_NOTE = ("Object half: proved for the decode programs go2coq reads off every decode method (generated, re-checked each run). Buffer half: Codec/Pool.v is a HAND model "
+              "of recv's appendBuffer, tread.handle and PayloadCleanup with arbitrary previous pool content; C18_pool_independent / C18_read_data are theorems about that model "
+              "(the latter an inductive invariant over any sequence of reads incl. lazy backends, with a _refuted twin for the variant without zeroing); C18_payload_cleared and "
+              "C18_payload_slice hold by construction of the model. The model is tied to the source by three generated syntactic facts (C18_pool_facts: exact-size decode slice, "
+              "Data = buf[:n], zeroing before Put) and by the poisoned-pool / lazy-backend differential on the real code. Trusted: Coq kernel + vm_compute; go2coq CodecGen; "
+              "sync.Pool returns some earlier buffer or a new one (the model quantifies over all contents); vecnet ReadFrom fills the whole slice or fails (C17).")
 DESIGN_REF = "6/C18"
 ASSUMPTIONS = [
     "a pool / cache returns some object of the right type in an arbitrary state (quantified over), never one still in use (C10/C06)",
     "ReadFrom fills the slices it is given completely or recv fails (C17)",
-    "the backend's ReadAt writes only p[:n] and reports n (io.ReaderAt contract) — Rread data are then exactly those n bytes",
+    "the backend's ReadAt writes at most the n bytes it reports (it may write fewer: lazy backends are covered) and n <= len(p)",
 ]
 TRUSTED_BASE = [
     "Coq 8.16.1 kernel, vm_compute (generated-table checks and cases evaluation); no native_compute",
